@@ -55,7 +55,7 @@ pub fn cases(ctx: &Ctx, section: &str, i: u64) -> Vec<Case> {
         }
         "w3" => {
             // Generated include graphs, fault free, through compile()
-            let g = crate::w3::generate(&mut rng.sub("w3"), crate::w3::Mode::Hostile);
+            let g = crate::w3::generate(&mut rng.sub("w3"), crate::w3::Mode::Hostile, crate::w3::Form::Compile);
             let task = crate::w3::compile_task(&g, &mut rng.sub("task"));
             vec![det_case(
                 &format!("W3:graph#{i}"),
